@@ -92,7 +92,8 @@ Definition item_of_opt (O : oracle) (def_mod : bytes) (t : ptype) (o : cliopt) :
   let '(pat, modopt) := split_at arg in
   {| pi_patt := init_filter_pattern O t pat;
      pi_mod := match modopt with Some m => m | None => def_mod end;
-     pi_pos := pos |}.
+     pi_pos := pos;
+     pi_exact := match modopt with Some _ => false | None => true end |}.
 
 Lemma parse_item_render O def t o : wf_opt o -> parse_item O def t (render_opt o) = item_of_opt O def t o.
 Proof.
@@ -115,8 +116,8 @@ Lemma module_skip_sound pl path so :
 Proof.
   intros H O name. apply match_none. intros p I. unfold item_hits.
   unfold match_pattern_module in H.
-  destruct (mod_applies path so (pi_mod p)) eqn:M; [|reflexivity].
-  assert (existsb (fun p => mod_applies path so (pi_mod p)) pl = true)
+  destruct (mod_applies path so p) eqn:M; [|reflexivity].
+  assert (existsb (fun p => mod_applies path so p) pl = true)
     by (apply existsb_exists; exists p; split; assumption).
   congruence.
 Qed.
